@@ -314,3 +314,79 @@ Proof.
 Qed.
 
 End Fixed.
+
+(* ---- wait-freedom: a Find call finishes within a bounded number of its OWN steps,
+        whatever the other goroutines do (no step waits for another thread) ---- *)
+Section Progress.
+Variables (w : world) (p : str).
+
+Definition listed_deps : nat :=
+  match listing w [p] with Some (qv :: _) => length (snd (snd qv)) | _ => 0 end.
+
+Definition pmeasure (k : pc) : nat :=
+  let L := listed_deps in
+  match k with
+  | PDone _ => 0
+  | POpen2 _ => 1
+  | PLoad2 => 2
+  | PStore _ => 3
+  | PRecDeps _ _ todo _ => 4 + length todo
+  | PRecSelf v => 5 + length (snd v)
+  | PList => 6 + L
+  | PInc => 7 + L
+  | POpen1 _ => 8 + L
+  | PDeps _ ds => 9 + L + length ds
+  | PSelf e => 10 + L + length (e_deps e)
+  | PStart => 0     (* not used: see tstep_first *)
+  end.
+
+Lemma tstep_decreases c n k c' n' k' :
+  k <> PStart -> is_done k = false -> tstep w p c n k = (c', n', k') -> pmeasure k' < pmeasure k.
+Proof.
+  intros Hs Hd H.
+  destruct k as [|e|e ds|e| | |v|exp hs todo acc|e| |e|r]; cbn [tstep is_done] in *;
+    try congruence; try discriminate.
+  - destruct (str_eqb _ _); inversion H; subst; cbn [pmeasure]; lia.
+  - destruct ds as [|d ds]; [|destruct (str_eqb _ _)]; inversion H; subst; cbn [pmeasure length]; lia.
+  - destruct (file_ok _ _); inversion H; subst; cbn [pmeasure]; lia.
+  - inversion H; subst; cbn [pmeasure]; lia.
+  - unfold pmeasure, listed_deps. destruct (listing w [p]) as [[|qv l]|]; inversion H; subst; cbn; lia.
+  - inversion H; subst; cbn [pmeasure fst snd]; lia.
+  - destruct todo as [|d todo]; inversion H; subst; cbn [pmeasure length]; lia.
+  - inversion H; subst; cbn [pmeasure]; lia.
+  - destruct (lookup p c); inversion H; subst; cbn [pmeasure]; lia.
+  - inversion H; subst; cbn [pmeasure]; lia.
+Qed.
+
+Lemma tstep_first c n c' n' k' :
+  tstep w p c n PStart = (c', n', k') ->
+  pmeasure k' <= 10 + listed_deps + match lookup p c with Some e => length (e_deps e) | None => 0 end.
+Proof.
+  cbn [tstep]. destruct (lookup p c) as [e|]; [destruct (str_eqb _ _)|]; intros H; inversion H; subst;
+    cbn [pmeasure]; lia.
+Qed.
+
+(* iterating the thread's own steps, with arbitrary changes of the shared cache and counter in
+   between (what other threads do): after pmeasure k own steps the call has returned *)
+Fixpoint own_steps (cs : list (cache * nat)) (k : pc) : pc :=
+  match cs with
+  | [] => k
+  | (c, n) :: r => own_steps r (snd (tstep w p c n k))
+  end.
+
+Lemma done_stays c n k : is_done k = true -> snd (tstep w p c n k) = k.
+Proof. destruct k; cbn; congruence. Qed.
+
+Lemma own_steps_done cs : forall k, k <> PStart -> pmeasure k <= length cs -> is_done (own_steps cs k) = true.
+Proof.
+  induction cs as [|[c n] cs IH]; intros k Hs Hm; cbn [own_steps length] in *.
+  - destruct k; cbn in *; try reflexivity; try lia; congruence.
+  - destruct (is_done k) eqn:Hd.
+    + rewrite (done_stays c n k Hd). apply IH; [exact Hs|]. destruct k; cbn in *; try discriminate; lia.
+    + destruct (tstep w p c n k) as [[c' n'] k'] eqn:E. cbn [snd].
+      pose proof (tstep_decreases _ _ _ _ _ _ Hs Hd E) as Hlt.
+      apply IH; [|lia]. destruct k; cbn [tstep] in E; try congruence;
+        repeat match type of E with context [match ?x with _ => _ end] => destruct x end;
+        inversion E; discriminate.
+Qed.
+End Progress.
